@@ -9,7 +9,7 @@
    every prefix of an event list is an event list, so every statement holds at every crash point. *)
 From AV Require Import Base.Util Model.Consumer Model.ConsumerLog Model.ConsumerLogFifo Model.ConsumerLogSeg Model.ConsumerLogC03
   Proofs.ConsumerC02ReqRun Proofs.ConsumerC02PwRun Proofs.ConsumerC03PwbRun Proofs.ConsumerC03Commit Proofs.ConsumerC03CommitRun
-  Proofs.ConsumerC03Req2Run Proofs.ConsumerC03Resume Proofs.ConsumerC03NoFuel.
+  Proofs.ConsumerC03Req2Run Proofs.ConsumerC03Resume Proofs.ConsumerC03NoFuel Proofs.ConsumerC03Crash.
 
 (* At most one commit request is in flight, and the public last_committed_offset (read at the end of every step) only
    ever holds the offset carried by a commit request the broker acknowledged or the offset an offset-fetch reply
@@ -153,33 +153,51 @@ Theorem C03_resume : forall fuel c maxatt buf v rest L,
 Proof. exact resume_run. Qed.
 Print Assumptions C03_resume.
 
+(* Crash and resume, the two lives joined.  First life: ANY configuration and event list, cut anywhere (process death);
+   C3 accepts it, and if the honest coordinator's store then holds v: v is the last offset of a block the first life
+   processed SUCCESSFULLY (and, by C3's commit rule at the moment the request carrying v was sent, everything that start
+   position had delivered before that block had been processed).  Second life: a fresh consumer started with
+   OFFSET_COMMITTED that is told THAT v, against an honest broker over any increasing log, position not resolved again:
+   what it hands to the processor followed by what it has queued is exactly log[v+1, next unread): every delivered
+   message has an offset above v - nothing at or below the committed offset is redelivered, nothing above it is skipped.
+   At-least-once, exactly: messages the first life processed AFTER the block ending at v (processed but not yet
+   acknowledged as committed) lie above v and ARE delivered again (crash_resume_ex: 44). *)
+Theorem C03_crash_resume : forall fuel1 c1 maxatt1 buf1 evs1 fuel2 c2 maxatt2 buf2 rest L,
+  0 <= c_acn c1 -> run_fuel_ok fuel1 c1 maxatt1 buf1 evs1 = true ->
+  exists g1, mon_run_s c3_ev c3_out c30 (run_steps fuel1 (init c1 maxatt1 buf1) evs1) = Some g1 /\ c3_inv g1 /\
+  forall v, m_store g1 = Some v ->
+    In v (m_ends g1) /\
+    (c_group c2 = true -> 0 <= c_acn c2 -> 0 <= v -> increasing L ->
+     run_fuel_ok fuel2 c2 maxatt2 buf2 (EStart OFF_COMMITTED :: EReqOk v :: rest) = true ->
+     honest_run L 0 (run_steps fuel2 (init c2 maxatt2 buf2) (EStart OFF_COMMITTED :: EReqOk v :: rest)) ->
+     no_resolve (run_steps fuel2 (resumed c2 maxatt2 buf2 v) rest) = true ->
+     exists gh, mon_run_s log_ev log_out log0 (run_steps fuel2 (init c2 maxatt2 buf2) (EStart OFF_COMMITTED :: EReqOk v :: rest)) = Some gh
+                /\ l_D gh ++ l_g gh = l_E gh
+                /\ (forall n, l_nx gh = Some n -> v + 1 <= n /\ l_E gh = seg (v + 1) n L)
+                /\ (l_nx gh = None -> l_D gh = [] /\ l_g gh = [])
+                /\ (forall x, In x (l_D gh) -> v < x)).
+Proof. exact crash_resume. Qed.
+Print Assumptions C03_crash_resume.
+
 (* ---- without the fuel hypothesis ----
    By fuel_enough (Proofs/ConsumerFuelEnoughRun.v): every run from a configuration with auto_commit_every_n >= 0 has a
    fuel f0 from which on the interpreter never gives up; the run-level theorems above therefore hold for every event
-   list outright, at every fuel >= f0 (the run itself no longer depends on the fuel there: C13_fuel_monotone). *)
-Theorem C03_no_delivery_after_failure_any_fuel : forall c maxatt buf evs, 0 <= c_acn c -> exists f0, forall fuel, (f0 <= fuel)%nat ->
-  exists b, mon_run_s pwb_ev pwb_out pwb0 (run_steps fuel (init c maxatt buf) evs)
-            = Some (mkPB (pw_abs None (fst (run_events fuel (init c maxatt buf) evs))) b)
-            /\ (b = true -> dead (fst (run_events fuel (init c maxatt buf) evs)) = true).
-Proof. exact pwb_any_fuel. Qed.
-Print Assumptions C03_no_delivery_after_failure_any_fuel.
-Theorem C03_commit_le_processed_any_fuel : forall c maxatt buf evs, 0 <= c_acn c -> exists f0, forall fuel, (f0 <= fuel)%nat ->
-  exists g, mon_run_s c3_ev c3_out c30 (run_steps fuel (init c maxatt buf) evs) = Some g
-            /\ c3_inv g
-            /\ b_pw (m_b g) = pw_abs None (fst (run_events fuel (init c maxatt buf) evs))
-            /\ (b_bad (m_b g) = true -> dead (fst (run_events fuel (init c maxatt buf) evs)) = true).
-Proof. exact c3_any_fuel. Qed.
-Print Assumptions C03_commit_le_processed_any_fuel.
-Theorem C03_store_is_processed_any_fuel : forall c maxatt buf evs, 0 <= c_acn c -> exists f0, forall fuel, (f0 <= fuel)%nat ->
-  exists g, mon_run_s c3_ev c3_out c30 (run_steps fuel (init c maxatt buf) evs) = Some g
-            /\ processed_end g (m_store g) /\ Forall (processed_end g) (m_sent g)
-            /\ match m_co g with Some off => processed_end g off | None => True end.
-Proof. exact c3_store_any_fuel. Qed.
-Print Assumptions C03_store_is_processed_any_fuel.
-Theorem C03_single_commit_any_fuel : forall c maxatt buf evs, 0 <= c_acn c -> exists f0, forall fuel, (f0 <= fuel)%nat ->
+   list outright (stated as ONE theorem: Print Assumptions over fuel_enough is slow), at every fuel >= f0 (the run itself no longer depends on the fuel there: C13_fuel_monotone). *)
+Theorem C03_run_theorems_any_fuel : forall c maxatt buf evs, 0 <= c_acn c -> exists f0, forall fuel, (f0 <= fuel)%nat ->
+  (* C03_no_delivery_after_failure *)
+  (exists b, mon_run_s pwb_ev pwb_out pwb0 (run_steps fuel (init c maxatt buf) evs)
+             = Some (mkPB (pw_abs None (fst (run_events fuel (init c maxatt buf) evs))) b)
+             /\ (b = true -> dead (fst (run_events fuel (init c maxatt buf) evs)) = true)) /\
+  (* C03_commit_le_processed and C03_store_is_processed *)
+  (exists g, mon_run_s c3_ev c3_out c30 (run_steps fuel (init c maxatt buf) evs) = Some g
+             /\ c3_inv g
+             /\ b_pw (m_b g) = pw_abs None (fst (run_events fuel (init c maxatt buf) evs))
+             /\ processed_end g (m_store g) /\ Forall (processed_end g) (m_sent g)
+             /\ match m_co g with Some off => processed_end g off | None => True end) /\
+  (* C03_single_commit (and with it C03_single_commit_committed_is_acked) *)
   mon_run req2_ev req2_out q20 (model_obs fuel c maxatt buf evs) = Some (req2_abs (fst (run_events fuel (init c maxatt buf) evs))).
-Proof. exact req2_any_fuel. Qed.
-Print Assumptions C03_single_commit_any_fuel.
+Proof. exact c03_any_fuel. Qed.
+Print Assumptions C03_run_theorems_any_fuel.
 Theorem C03_resume_any_fuel : forall c maxatt buf v rest L,
   c_group c = true -> 0 <= c_acn c -> 0 <= v -> increasing L ->
   exists f0, forall fuel, (f0 <= fuel)%nat ->
@@ -270,3 +288,14 @@ Proof.
   cbn [honest_run last_fetch fold_left]. repeat split.
   intros _. exists [3; 4], [15; 16]. split; [reflexivity | repeat constructor].
 Qed.
+(* two lives: the first processes [42;43] (commit of 43 acknowledged) and then [44] (processed, not committed) and dies;
+   the store holds 43, an end of a processed block; the second life, told 43, receives [44;45]: 44 once more, 43 never *)
+Example crash_resume_ex :
+  let c := mkCfg true 2 false 0 None 17 in
+  let evs1 := [EStart 42; EPlan 0 0; EFetchOk [42; 43; 44] false; ECommitOk; EPlan 0 0; EProcFire true] in
+  let rest := [EPlan 0 0; EFetchOk [44; 45] false] in
+  (exists g1, mon_run_s c3_ev c3_out c30 (run_steps 30 (init c 0 4096) evs1) = Some g1 /\
+              m_store g1 = Some 43 /\ m_ends g1 = [43; 44] /\ m_ok g1 = [42; 43; 44]) /\
+  (exists gh, mon_run_s log_ev log_out log0 (run_steps 30 (init c 0 4096) (EStart OFF_COMMITTED :: EReqOk 43 :: rest)) = Some gh /\
+              l_D gh = [44; 45] /\ l_st gh = 44).
+Proof. split; eexists; vm_compute; repeat split; reflexivity. Qed.
